@@ -122,6 +122,8 @@ def main():
         oc.update(meta.get('checks', {}))
         meta['checks'] = oc
         meta['caught_by'] = sorted(c for c, r in oc.items() if r['rc'] == 1)
+        if 'first_evaluation' in old:
+            meta['first_evaluation'] = old['first_evaluation']
     json.dump(meta, open(mp, 'w'), indent=1)
     print(f'{a.pid}-{a.k}: confirmed={meta["confirmed"]} caught_by={meta.get("caught_by")}')
     return 0
